@@ -284,7 +284,12 @@ class DelayedS3Writer(S3Limits):
             mpu.uploadId = uploadId
             return mpu
 
-        lock = DLock(self._build_name("MPULock"), client)
+        try:
+            lock = DLock(self._build_name("MPULock"), client=client)
+        except TypeError:
+            # newer distributed: the lock is a semaphore that finds the client by itself
+            # (its second positional argument is the scheduler connection, not a client)
+            lock = DLock(self._build_name("MPULock"))
         with lock:
             uploadId = _safe_get(shared_state, 0.1)
             if uploadId is not None:
